@@ -733,6 +733,376 @@ theorem totalJvp_routes_by_specification (L : List SpecTerm) (hL : ∀ x ∈ L, 
   rw [this]
   rfl
 
+/-! ### `Holds.C06` is true of every trace of the model -/
+
+open Jinns.Holds (Setup06 Obs06 holdsObs holdsScan holdsC06 holdsSetup firstSome specValid specSelects
+  checkMask checkReturned checkTotal expectedGrad baseGrad vadd vzero sumR)
+
+def setupOf (L : Layout) (baseTotal : Rat) (ref : Option (List (List (List Rat)))) : Setup06 :=
+  { gmaps := L.gmaps, nView := L.nView, dims := L.dims, baseVals := L.baseVals, baseTotal := baseTotal,
+    baseGrads := L.baseGrads, returned := L.returned, refGrads := ref }
+
+def obsOf (specs : List Spec) : Option Prediction → Obs06
+  | none => { specs := specs.map toHolds, error := some "value_error", masks := [], termVals := [],
+              totalVal := 0, termGrads := [], totalGrad := [] }
+  | some p => { specs := specs.map toHolds, error := none, masks := p.masks, termVals := p.termVals,
+                totalVal := p.totalVal, termGrads := p.termGrads, totalGrad := p.totalGrad }
+
+structure Layout.WF (L : Layout) (specs : List Spec) : Prop where
+  nspecs : specs.length = L.nTerms
+  view   : ∀ k, k < L.nTerms → 1 ≤ L.nView.getD k 0
+  tree   : ∀ k, k < L.nTerms → ∀ m, specs.getD k .dflt = .tree m → m.length = L.nView.getD k 0
+  gm     : ∀ k g i, (L.gmaps.getD k []).getD g none = some i → i + 1 ≤ L.nView.getD k 0
+  shapes : ∀ k, k < L.nTerms → ∀ g, g < L.dims.length →
+             ((L.baseGrads.getD k []).getD g []).length = L.dims.getD g 0
+  mem    : ∀ ms ∈ L.returned, ∀ k ∈ ms, k < L.nTerms
+
+theorem firstSome_none (l : List (Option String)) (h : ∀ x ∈ l, x = none) : firstSome l = none := by
+  induction l with
+  | nil => rfl
+  | cons x xs ih =>
+    have hx : x = none := h x (by simp)
+    subst hx
+    simpa [firstSome] using ih (fun y hy => h y (by simp [hy]))
+
+theorem allSome_eq_some {α : Type} (l : List (Option α)) (ms : List α) (h : allSome l = some ms) :
+    l = ms.map some := by
+  induction l generalizing ms with
+  | nil => simp [allSome] at h; subst h; rfl
+  | cons x xs ih =>
+    cases x with
+    | none => simp [allSome] at h
+    | some a =>
+      simp only [allSome, Option.map_eq_some_iff] at h
+      obtain ⟨r, hr, rfl⟩ := h
+      rw [ih r hr]; rfl
+
+theorem allSome_eq_none {α : Type} (l : List (Option α)) (h : allSome l = none) : ∃ k, k < l.length ∧ l[k]? = some none := by
+  induction l with
+  | nil => simp [allSome] at h
+  | cons x xs ih =>
+    cases x with
+    | none => exact ⟨0, by simp, by simp⟩
+    | some a =>
+      simp only [allSome, Option.map_eq_none_iff] at h
+      obtain ⟨k, hk, hk2⟩ := ih h
+      exact ⟨k + 1, by simp; omega, by simpa using hk2⟩
+
+theorem sumQ_eq_sumR (l : List Rat) : sumQ l = sumR l := by
+  induction l with
+  | nil => rfl
+  | cons x xs ih => simp [sumQ, sumR, ih]
+
+theorem resolve_none_invalid (n : Nat) (sp : Spec) (h : resolve n sp = none) : specValid (toHolds sp) = false := by
+  cases sp with
+  | dflt => rw [(resolve_default n).2] at h; simp at h
+  | tree m => simp [resolve] at h
+  | str s =>
+    simp only [resolve] at h
+    have : ¬ (maskOfString n s).isSome := by rw [h]; simp
+    rw [maskOfString_isSome_iff] at this
+    simp only [not_or] at this
+    simp [toHolds, specValid, this.1, this.2.1, this.2.2]
+
+theorem resolve_some_valid (n : Nat) (sp : Spec) (m : Mask) (h : resolve n sp = some m) :
+    specValid (toHolds sp) = true := by
+  cases sp with
+  | dflt => rfl
+  | tree m => rfl
+  | str s =>
+    simp only [resolve] at h
+    have : (maskOfString n s).isSome := by rw [h]; rfl
+    rw [maskOfString_isSome_iff] at this
+    rcases this with rfl | rfl | rfl <;> simp [toHolds, specValid]
+
+/-- length of a resolved mask -/
+theorem resolve_length (n : Nat) (sp : Spec) (m : Mask) (h : resolve n sp = some m)
+    (ht : ∀ t, sp = .tree t → t.length = n + 1) : m.length = n + 1 := by
+  cases sp with
+  | tree t => simp only [resolve, Option.some.injEq] at h; subst h; exact ht _ rfl
+  | dflt => rw [(resolve_default n).2] at h; simp only [Option.some.injEq] at h; subst h; simp
+  | str s =>
+    have hv : (Spec.str s).Valid := by
+      have : (maskOfString n s).isSome := by simp only [resolve] at h; rw [h]; rfl
+      exact (maskOfString_isSome_iff n s).1 this
+    rw [resolve_explicit n _ hv] at h
+    simp only [Option.some.injEq] at h; subst h
+    simp only [explicitMask]
+    split <;> [skip; split] <;> simp
+
+theorem resolve_eq_selects (n : Nat) (sp : Spec) (m : Mask) (h : resolve n sp = some m)
+    (ht : ∀ t, sp = .tree t → t.length = n + 1) :
+    m = (List.range (n + 1)).map (specSelects (toHolds sp)) := by
+  have hl := resolve_length n sp m h ht
+  apply List.ext_getElem
+  · simp [hl]
+  · intro i h1 h2
+    have hi : i ≤ n := by omega
+    have := resolve_selects n sp m h i hi
+    rw [List.getD_eq_getElem?_getD, List.getElem?_eq_getElem h1] at this
+    simp only [Option.getD_some] at this
+    simp [this]
+
+
+
+theorem getD_map_toHolds (specs : List Spec) (k : Nat) :
+    (specs.map toHolds).getD k .dflt = toHolds (specs.getD k .dflt) := by
+  rw [List.getD_eq_getElem?_getD, List.getD_eq_getElem?_getD, List.getElem?_map]
+  cases specs[k]? <;> rfl
+
+theorem masksOf_some (L : Layout) (specs : List Spec) (masks : List Mask)
+    (h : masksOf L specs = some masks) :
+    masks.length = L.nTerms ∧ ∀ k, k < L.nTerms → maskAt L specs k = some (masks.getD k []) := by
+  have e := allSome_eq_some _ _ h
+  have hl : masks.length = L.nTerms := by
+    have := congrArg List.length e
+    simpa using this.symm
+  refine ⟨hl, fun k hk => ?_⟩
+  have := congrArg (fun l => l[k]?) e
+  simp only [List.getElem?_map, List.getElem?_range hk, Option.map_some] at this
+  have hk' : k < masks.length := by omega
+  rw [List.getElem?_eq_getElem hk', Option.map_some] at this
+  rw [List.getD_eq_getElem?_getD, List.getElem?_eq_getElem hk']
+  simpa using this
+
+section
+variable (L : Layout) (specs : List Spec) (masks : List Mask) (bt : Rat)
+  (ref : Option (List (List (List Rat))))
+
+theorem model_selecting (hwf : L.WF specs) (hm : masksOf L specs = some masks) (o : Obs06)
+    (ho : o.specs = specs.map toHolds) (ms : List Nat) (hms : ∀ k ∈ ms, k < L.nTerms) (g : Nat) :
+    selecting (famOf L masks ms) g
+      = (Jinns.Holds.selecting (setupOf L bt ref) o ms g).map (termAt L) := by
+  unfold selecting famOf Jinns.Holds.selecting
+  rw [List.filter_map, List.map_map]
+  have : ms.filter ((fun mt : Mask × LossTerm => mt.1.getD g false) ∘
+        fun k => (liftMask (L.gmaps.getD k []) (masks.getD k []), termAt L k))
+      = ms.filter (fun k => Jinns.Holds.selects ((setupOf L bt ref).gmaps.getD k []) (o.specs.getD k .dflt) g) := by
+    apply List.filter_congr
+    intro k hk
+    have hkT := hms k hk
+    have hmk := (masksOf_some L specs masks hm).2 k hkT
+    simp only [Function.comp, setupOf, ho, getD_map_toHolds]
+    exact lifted_selects (L.nView.getD k 0 - 1) (specs.getD k .dflt) (masks.getD k []) (L.gmaps.getD k [])
+      hmk g (fun i hi => by have := hwf.gm k g i hi; omega)
+  rw [this]
+  rfl
+
+theorem model_grad_eq_expected (hwf : L.WF specs) (hm : masksOf L specs = some masks) (o : Obs06)
+    (ho : o.specs = specs.map toHolds) (ms : List Nat) (hms : ∀ k ∈ ms, k < L.nTerms) (g : Nat)
+    (hg : g < L.dims.length) :
+    gradient (totalJvp (evalTerms (famOf L masks ms))) g (L.dims.getD g 0)
+      = expectedGrad (setupOf L bt ref) o ms g := by
+  rw [gradient_total_eq_vector_sum]
+  · rw [model_selecting L specs masks bt ref hwf hm o ho ms hms g]
+    unfold expectedGrad
+    rw [List.foldl_map]
+    rfl
+  · intro mt hmt
+    unfold famOf at hmt
+    obtain ⟨k, hk, rfl⟩ := List.mem_map.1 hmt
+    exact hwf.shapes k (hms k hk) g hg
+
+theorem model_val (ms : List Nat) :
+    totalVal (evalTerms (famOf L masks ms)) = sumR (ms.map (fun k => L.baseVals.getD k 0)) := by
+  rw [totalVal_mask_independent, ← sumQ_eq_sumR]
+  unfold totalVal famOf
+  simp [List.map_map, Function.comp_def, termAt]
+
+end
+
+
+theorem getD_map_of_lt {α β : Type} (f : α → β) (l : List α) (r : Nat) (h : r < l.length) (d : β) (d' : α) :
+    (l.map f).getD r d = f (l.getD r d') := by
+  rw [List.getD_eq_getElem?_getD, List.getD_eq_getElem?_getD, List.getElem?_map,
+    List.getElem?_eq_getElem h]
+  rfl
+
+theorem gradsOf_getD (L : Layout) (ts : List LossTerm) (g : Nat) (hg : g < L.dims.length) :
+    (gradsOf L ts).getD g [] = gradient (totalJvp ts) g (L.dims.getD g 0) := by
+  unfold gradsOf
+  rw [getD_map_of_lt _ _ g (by simpa using hg) [] 0]
+  have : (List.range L.dims.length).getD g 0 = g := by
+    rw [List.getD_eq_getElem?_getD, List.getElem?_range hg]; rfl
+  rw [this]
+
+section
+variable (L : Layout) (specs : List Spec) (masks : List Mask) (bt : Rat)
+  (ref : Option (List (List (List Rat))))
+
+/-- the observation the model produces when the specification is accepted -/
+def okObs (L : Layout) (specs : List Spec) (masks : List Mask) : Obs06 :=
+  let ev := fun members => evalTerms (famOf L masks members)
+  { specs := specs.map toHolds, error := none, masks := masks,
+    termVals := L.returned.map (fun ms => totalVal (ev ms)),
+    totalVal := totalVal (ev (List.range L.nTerms)),
+    termGrads := L.returned.map (fun ms => gradsOf L (ev ms)),
+    totalGrad := gradsOf L (ev (List.range L.nTerms)) }
+
+theorem checkMask_model (hwf : L.WF specs) (hm : masksOf L specs = some masks) (k : Nat)
+    (hk : k < L.nTerms) : checkMask (setupOf L bt ref) (okObs L specs masks) k = none := by
+  have hmk := (masksOf_some L specs masks hm).2 k hk
+  have hv := hwf.view k hk
+  have hn : L.nView.getD k 0 - 1 + 1 = L.nView.getD k 0 := by omega
+  have hseen := resolve_eq_selects (L.nView.getD k 0 - 1) (specs.getD k .dflt) (masks.getD k []) hmk
+    (fun t ht => by rw [hwf.tree k hk t ht]; omega)
+  rw [hn] at hseen
+  unfold checkMask
+  simp only [okObs, setupOf, getD_map_toHolds]
+  rw [← hseen]
+  simp
+
+theorem checkReturned_model (hwf : L.WF specs) (hm : masksOf L specs = some masks) (r : Nat)
+    (hr : r < L.returned.length) :
+    checkReturned (setupOf L bt ref) (okObs L specs masks) r = none := by
+  have hms : ∀ k ∈ L.returned.getD r [], k < L.nTerms := by
+    intro k hk
+    refine hwf.mem _ ?_ k hk
+    rw [List.getD_eq_getElem?_getD, List.getElem?_eq_getElem hr]
+    exact List.getElem_mem hr
+  unfold checkReturned
+  have hval : (okObs L specs masks).termVals.getD r 0
+      = sumR ((L.returned.getD r []).map (fun k => L.baseVals.getD k 0)) := by
+    simp only [okObs]
+    rw [getD_map_of_lt _ _ r hr 0 [], model_val]
+  have hgr : ∀ g, g < L.dims.length →
+      ((okObs L specs masks).termGrads.getD r []).getD g []
+        = expectedGrad (setupOf L bt ref) (okObs L specs masks) (L.returned.getD r []) g := by
+    intro g hg
+    simp only [okObs]
+    rw [getD_map_of_lt _ _ r hr [] [], gradsOf_getD L _ g hg]
+    exact model_grad_eq_expected L specs masks bt ref hwf hm _ rfl _ hms g hg
+  simp only [setupOf] at hval hgr ⊢
+  simp only [hval, beq_self_eq_true, Bool.not_true, Bool.false_eq_true, ↓reduceIte]
+  apply firstSome_none
+  intro x hx
+  obtain ⟨g, hg, rfl⟩ := List.mem_map.1 hx
+  have hg' : g < L.dims.length := List.mem_range.1 hg
+  rw [hgr g hg']
+  simp
+
+theorem checkTotal_model (hwf : L.WF specs) (hm : masksOf L specs = some masks)
+    (hbt : bt = sumQ L.baseVals) :
+    checkTotal (setupOf L bt ref) (okObs L specs masks) = none := by
+  have hms : ∀ k ∈ List.range L.nTerms, k < L.nTerms := fun k hk => List.mem_range.1 hk
+  unfold checkTotal
+  have hval : (okObs L specs masks).totalVal = bt := by
+    simp only [okObs]
+    rw [model_val, hbt, ← sumQ_eq_sumR]
+    congr 1
+    apply List.ext_getElem
+    · simp [Layout.nTerms]
+    · intro i h1 h2
+      simp only [List.getElem_map, List.getElem_range]
+      rw [List.getD_eq_getElem?_getD, List.getElem?_eq_getElem h2]; rfl
+  have hgr : ∀ g, g < L.dims.length →
+      (okObs L specs masks).totalGrad.getD g []
+        = expectedGrad (setupOf L bt ref) (okObs L specs masks) (List.range L.nTerms) g := by
+    intro g hg
+    simp only [okObs]
+    rw [gradsOf_getD L _ g hg]
+    exact model_grad_eq_expected L specs masks bt ref hwf hm _ rfl _ hms g hg
+  simp only [setupOf, Layout.nTerms] at hval hgr ⊢
+  simp only [hval, bne_self_eq_false, Bool.false_eq_true, ↓reduceIte]
+  apply firstSome_none
+  intro x hx
+  obtain ⟨g, hg, rfl⟩ := List.mem_map.1 hx
+  have hg' : g < L.dims.length := List.mem_range.1 hg
+  rw [hgr g hg']
+  simp
+
+end
+
+
+theorem getD_eq_of_lt {α : Type} (l : List α) (k : Nat) (h : k < l.length) (d : α) : l.getD k d = l[k] := by
+  rw [List.getD_eq_getElem?_getD, List.getElem?_eq_getElem h]; rfl
+
+theorem obsOf_predict_some (L : Layout) (specs : List Spec) (masks : List Mask)
+    (hm : masksOf L specs = some masks) : obsOf specs (predict L specs) = okObs L specs masks := by
+  unfold predict
+  rw [hm]
+  rfl
+
+/-- **`Holds.C06` holds of every observation the model produces**: for every layout, all-true
+    measurements, and specification (accepted or rejected), provided the set-up is well formed
+    (shapes as `holdsSetup` checks them, members in range, trees of the size of their view) and the
+    total is the sum of the terms. -/
+theorem holdsObs_of_model (L : Layout) (specs : List Spec) (bt : Rat)
+    (ref : Option (List (List (List Rat)))) (hwf : L.WF specs) (hbt : bt = sumQ L.baseVals) :
+    holdsObs (setupOf L bt ref) (obsOf specs (predict L specs)) = none := by
+  cases hm : masksOf L specs with
+  | none =>
+    -- some specification is an unknown string: the model rejects, as the property demands
+    obtain ⟨k, hk, hk2⟩ := allSome_eq_none _ hm
+    have hkT : k < L.nTerms := by simpa using hk
+    rw [List.getElem?_map, List.getElem?_range hkT] at hk2
+    have hnone : maskAt L specs k = none := by simpa using hk2
+    have hinv := resolve_none_invalid _ _ hnone
+    have hks : k < specs.length := by rw [hwf.nspecs]; exact hkT
+    have hany : (specs.map toHolds).any (fun sp => !specValid sp) = true := by
+      rw [List.any_eq_true]
+      refine ⟨toHolds (specs.getD k .dflt), ?_, by rw [hinv]; rfl⟩
+      rw [getD_eq_of_lt specs k hks]
+      exact List.mem_map.2 ⟨specs[k], List.getElem_mem hks, rfl⟩
+    have hp : predict L specs = none := by unfold predict; rw [hm]
+    rw [hp]
+    unfold holdsObs
+    simp only [obsOf, hany]
+    simp
+  | some masks =>
+    rw [obsOf_predict_some L specs masks hm]
+    have hvalid : (okObs L specs masks).specs.any (fun sp => !specValid sp) = false := by
+      rw [List.any_eq_false]
+      intro x hx
+      simp only [okObs] at hx
+      obtain ⟨sp, hsp, rfl⟩ := List.mem_map.1 hx
+      obtain ⟨k, hk, rfl⟩ := List.getElem_of_mem hsp
+      have hkT : k < L.nTerms := by rw [← hwf.nspecs]; exact hk
+      have hmk := (masksOf_some L specs masks hm).2 k hkT
+      unfold maskAt at hmk
+      rw [getD_eq_of_lt specs k hk] at hmk
+      rw [resolve_some_valid _ _ _ hmk]; simp
+    unfold holdsObs
+    rw [hvalid]
+    have herr : (okObs L specs masks).error.isSome = false := rfl
+    simp only [Bool.false_eq_true, ↓reduceIte, herr]
+    apply firstSome_none
+    intro x hx
+    rcases List.mem_append.1 hx with hx | hx
+    · rcases List.mem_append.1 hx with hx | hx
+      · obtain ⟨k, hk, rfl⟩ := List.mem_map.1 hx
+        exact checkMask_model L specs masks bt ref hwf hm k (by simpa [setupOf, Layout.nTerms] using hk)
+      · obtain ⟨r, hr, rfl⟩ := List.mem_map.1 hx
+        exact checkReturned_model L specs masks bt ref hwf hm r (by simpa [setupOf] using hr)
+    · simp only [List.mem_singleton] at hx
+      rw [hx]
+      exact checkTotal_model L specs masks bt ref hwf hm hbt
+
+
+
+theorem holdsScan_of_model (L : Layout) (bt : Rat) (ref : Option (List (List (List Rat))))
+    (hbt : bt = sumQ L.baseVals) (specsList : List (List Spec)) (hwf : ∀ specs ∈ specsList, L.WF specs)
+    (i : Nat) :
+    holdsScan (setupOf L bt ref) i (specsList.map (fun sp => obsOf sp (predict L sp))) = none := by
+  induction specsList generalizing i with
+  | nil => rfl
+  | cons sp rest ih =>
+    simp only [List.map_cons, holdsScan]
+    rw [holdsObs_of_model L sp bt ref (hwf sp (by simp)) hbt]
+    exact ih (fun s hs => hwf s (by simp [hs])) (i + 1)
+
+/-- **`Holds.C06` is true of every trace of the model**: whenever the set-up clauses hold (shapes;
+    all-true gradients = reference gradients), every list of specifications - accepted or rejected,
+    default / string / tree, single loss or system layout - yields model observations that satisfy
+    the property predicate. -/
+theorem holdsC06_of_model (L : Layout) (bt : Rat) (ref : Option (List (List (List Rat))))
+    (hsetup : holdsSetup (setupOf L bt ref) = none) (hbt : bt = sumQ L.baseVals)
+    (specsList : List (List Spec)) (hwf : ∀ specs ∈ specsList, L.WF specs) :
+    holdsC06 (setupOf L bt ref) (specsList.map (fun sp => obsOf sp (predict L sp))) = none := by
+  unfold holdsC06
+  rw [hsetup, holdsScan_of_model L bt ref hbt specsList hwf 0]
+  rfl
+
 /-! ### non-vacuity -/
 
 /-- a two-group, three-term family with every (term, group) differential non-zero -/
@@ -793,5 +1163,24 @@ example : (SpecTerm.mk (.str "eq_params") 2 [some 0, none, some 1, some 2] { val
   | 2 => simp at h; omega
   | 3 => simp at h; omega
   | (k + 4) => simp at h
+
+def exLayout : Layout :=
+  { gmaps := [[some 0, some 1], [some 0, some 1]], nView := [2, 2], dims := [1, 1],
+    baseVals := [1, 2], baseGrads := [[[1], [2]], [[3], [4]]], returned := [[0], [1]] }
+
+example : exLayout.WF [.str "both", .tree [true, false]] where
+  nspecs := rfl
+  view := by decide
+  tree := by
+    intro k hk m h
+    rcases k with _ | _ | k
+    · simp at h
+    · simp at h; subst h; rfl
+    · exact absurd hk (by simp [exLayout, Layout.nTerms])
+  gm := by
+    intro k g i h
+    rcases k with _ | _ | k <;> rcases g with _ | _ | g <;> simp [exLayout] at h ⊢ <;> omega
+  shapes := by decide
+  mem := by decide
 
 end Jinns.DerivKeys
